@@ -586,7 +586,9 @@ def horizontal_diffusion_step_filter(
     A function that accepts a state and returns a filtered state.
   """
   eigenvalues = grid.laplacian_eigenvalues
-  scale = dt / (tau * abs(eigenvalues[-1]) ** order)
+  # index the top resolved mode: padded layouts have zero eigenvalues at the end
+  top_eigenvalue = eigenvalues[grid.total_wavenumbers - 1]
+  scale = dt / (tau * abs(top_eigenvalue) ** order)
   filter_fn = filtering.horizontal_diffusion_filter(grid, scale, order)
   return runge_kutta_step_filter(filter_fn)
 
